@@ -321,6 +321,10 @@ func (g *gen) field(fieldName string, fieldType types.Type) (string, error) {
 			types.Uintptr, types.UnsafePointer, types.UntypedInt:
 			return fmt.Sprintf("uint64(%s)", fieldName), nil
 		case types.Uint64:
+			if _, unnamed := fieldType.(*types.Basic); !unnamed {
+				// a named uint64 type has to be converted before it can be added to the hash
+				return fmt.Sprintf("uint64(%s)", fieldName), nil
+			}
 			return fmt.Sprintf("%s", fieldName), nil
 		case types.Float32:
 			if _, named := fieldType.(*types.Basic); !named {
